@@ -1,14 +1,5 @@
 ---------------------------- MODULE MC_TDSLoopQ ----------------------------
-EXTENDS TDSLoop
-MC_TimerIds == {1, 2}
-MC_DevOf == (1 :> "A") @@ (2 :> "A")
-MC_KindOf == (1 :> "toggle") @@ (2 :> "toggle")
-MC_Taus == {-10, 0, 10, 15, 40, 50}
-MC_SegChoices == {<<40>>, <<15, 40>>, <<25, 40>>}
-MC_FixTs == {TRUE, FALSE}
-MC_ShrinkTs == {TRUE}
-MC_SaveEverys == {1}
-MC_Classes == {1, 3}
+EXTENDS TDSLoop, MCC_TDSLoopQ
 \* bound the exploration depth (a run of <= 40 units with h >= 1 is far shorter)
 DepthBound == TLCGet("level") <= 400
 ===========================================================================
